@@ -10,7 +10,7 @@
     open) is decided by the exhaustive-schedule exploration with a Wing-Gong
     search (vlib/c04.py), each schedule replayed on the pool semantics. *)
 From Coq Require Import List NArith ZArith String Bool.
-From Kismet Require Import FS.Fs FS.Prog Ops.Ops Spec.ClassMon Spec.Calm Conc.Pool Proofs.PutNeverOverwrites.
+From Kismet Require Import Pure.Hash FS.Fs FS.Prog Ops.Ops Spec.ClassMon Spec.Calm Conc.Pool Proofs.PutNeverOverwrites Proofs.NeverMasked Seq.Plain Proofs.KvSeq.
 Import ListNotations.
 
 Theorem C04_put_never_renames : forall cfg k v, allc norename (cache_put cfg k v) anyc.
@@ -26,6 +26,50 @@ Theorem C04_link_onto_existing_fails : forall f e p q cq j,
   resolve f q = inl cq -> name_of f cq = Some j ->
   fst (sem f e (CLink p q)) = f /\ snd (sem f e (CLink p q)) <> ROk.
 Proof. exact link_onto_existing_fails. Qed.
+
+(** The linearization points in the kernel model: set takes effect at its (single,
+    atomic) rename, put at its link, get at its open - and the descriptor a get
+    obtained keeps that inode whatever happens to the name afterwards. *)
+Theorem C04_set_takes_effect_at_rename : forall f e p q cp cq i,
+  resolve f p = inl cp -> resolve f q = inl cq -> name_of f cp = Some i ->
+  snd (sem f e (CRename p q)) = ROk -> name_of (fst (sem f e (CRename p q))) cq = Some i.
+Proof. exact rename_binds. Qed.
+Theorem C04_put_takes_effect_at_link : forall f e p q cp cq i,
+  resolve f p = inl cp -> resolve f q = inl cq -> name_of f cp = Some i ->
+  snd (sem f e (CLink p q)) = ROk -> name_of (fst (sem f e (CLink p q))) cq = Some i.
+Proof. exact link_binds. Qed.
+Theorem C04_get_takes_effect_at_open : forall f e p a cp d,
+  resolve f p = inl cp -> snd (sem f e (COpen p a)) = RFd d ->
+  exists i, name_of f cp = Some i /\ Conc.Effect.fdino (fst (sem f e (COpen p a))) d = Some i.
+Proof. exact open_reads_binding. Qed.
+
+(** The sequential register, in the kernel model: once a set has returned, a later
+    lookup that hits returns the set's inode (and, fault-free, does hit); a put
+    that reports success leaves an existing entry exactly as it was. *)
+Theorem C04_set_then_lookup : forall d name v i0 w o o2,
+  plainp (cd_base d) = true -> valid_name name = true -> plainp v = true ->
+  (forall q, v <> cd_base d ++ q) -> (forall q, cd_base d <> v ++ q) ->
+  names_plain (w_fs w) -> name_of (w_fs w) v = Some i0 ->
+  let '(r, w1, _, _) := run (cd_set d name v) w o in
+  is_ok r = true ->
+  let '(r2, w2, _, _) := run (cd_get d name) w1 o2 in
+  (forall fd, r2 = Ok (Some fd) -> Conc.Effect.fdino (w_fs w2) fd = Some i0) /\
+  (o_fault o2 = None -> resolve (w_fs w1) (cd_base d ++ [name]) = inl (cd_base d ++ [name]) ->
+   inode_of (w_fs w1) i0 <> None -> r2 <> Ok None).
+Proof. exact set_then_get. Qed.
+
+Theorem C04_put_keeps_an_existing_entry : forall d name v i0 j w o,
+  plainp (cd_base d) = true -> valid_name name = true -> plainp v = true ->
+  (forall q, v <> cd_base d ++ q) -> (forall q, cd_base d <> v ++ q) ->
+  o_fault o = None -> names_plain (w_fs w) ->
+  name_of (w_fs w) v = Some i0 -> name_of (w_fs w) (cd_base d ++ [name]) = Some j ->
+  let '(r, w', _, _) := run (cd_put d name v) w o in
+  is_ok r = true -> name_of (w_fs w') (cd_base d ++ [name]) = Some i0 \/ name_of (w_fs w') (cd_base d ++ [name]) = Some j.
+Proof.
+  intros d name v i0 j w o Hb Hn Hv Ho Ha Hnf Hpl Hv0 Hj.
+  pose proof (plain_put_binds d name v Hb Hn Hv Ho Ha i0 (Some j) w o Hnf Hpl Hv0 Hj) as H.
+  destruct (run (cd_put d name v) w o) as [[[r w'] o'] tr]. intros Hok. destruct (H Hok) as [H1|(H1 & _)]; auto.
+Qed.
 
 (** On every sequential run of put: no rename in the trace. *)
 Theorem C04_put_trace_has_no_rename : forall cfg k v w o,
